@@ -68,6 +68,60 @@ pub fn check_rule(env: &Env, rule: CtxRule, l: &[u32], s: &str, pos: usize, st: 
     exp
 }
 
+/// rules that own some code point of the label (the middle dot rule if none does)
+pub fn rules_present(l: &[u32]) -> Vec<CtxRule> {
+    let mut v: Vec<CtxRule> = CtxRule::ALL.iter().copied().filter(|r| l.iter().any(|c| r.owns(*c))).collect();
+    if v.is_empty() {
+        v.push(CtxRule::MiddleDot);
+    }
+    v
+}
+
+/// For every ordered pair (A, B) of distinct strings of equal byte length and all character
+/// positions p <= q, `f(buf, A, p, B, q)` is called with one String buffer that lives for the
+/// whole group: `f` writes A into it, makes its call at p, writes B into it (same allocation,
+/// same length) and makes its call at q.
+pub fn two_call_histories<F>(strings: &[String], f: F) -> Stats
+where
+    F: Fn(&mut String, &str, usize, &str, usize, &mut Stats) + Sync,
+{
+    use rayon::prelude::*;
+    use std::collections::BTreeMap;
+    let mut by_len: BTreeMap<usize, Vec<&String>> = BTreeMap::new();
+    for s in strings {
+        by_len.entry(s.len()).or_default().push(s);
+    }
+    let groups: Vec<Vec<&String>> = by_len.into_values().filter(|g| g.len() >= 2).collect();
+    let shards: Vec<Stats> = groups
+        .par_iter()
+        .map(|g| {
+            let mut st = Stats::default();
+            let mut buf = String::with_capacity(64);
+            for a in g.iter() {
+                for b in g.iter() {
+                    if a == b {
+                        continue;
+                    }
+                    let (na, nb) = (a.chars().count(), b.chars().count());
+                    for p in 0..na {
+                        for q in p..nb {
+                            st.states += 1;
+                            st.transitions += 2;
+                            f(&mut buf, a, p, b, q, &mut st);
+                        }
+                    }
+                }
+            }
+            st
+        })
+        .collect();
+    let mut total = Stats::default();
+    for s in shards {
+        total.merge(s);
+    }
+    total
+}
+
 fn positions(len: usize) -> Vec<usize> {
     let mut p: Vec<usize> = (0..=len + 1).collect();
     p.push(usize::MAX - 1);
@@ -276,6 +330,26 @@ pub fn run(env: &Env, run: &Run) -> (Stats, Coverage) {
             }
         }));
     }
+    // (b4) two-call histories: one rule call on label A at position p, then one rule call on a
+    // different label B of the same byte length in the same allocation at a position q >= p
+    {
+        let hs4: Vec<char> = [0x6Cu32, 0xB7, 0xE9, ZWJ, VIRAMA, 0x65E5].iter().map(|c| char::from_u32(*c).unwrap()).collect();
+        let strs: Vec<String> = all_strings(&hs4, run.tier.pick(3, 4));
+        st.merge(two_call_histories(&strs, |buf, a, p, b, q, st| {
+            let la: Vec<u32> = a.chars().map(|c| c as u32).collect();
+            let lb: Vec<u32> = b.chars().map(|c| c as u32).collect();
+            for ra in rules_present(&la) {
+                for rb in rules_present(&lb) {
+                    buf.clear();
+                    buf.push_str(a);
+                    check_rule(env, ra, &la, buf, p, st);
+                    buf.clear();
+                    buf.push_str(b);
+                    check_rule(env, rb, &lb, buf, q, st);
+                }
+            }
+        }));
+    }
     // (c) registry over u32
     let exhaustive_u32 = run.tier == Tier::Thorough;
     if exhaustive_u32 {
@@ -294,7 +368,7 @@ pub fn run(env: &Env, run: &Run) -> (Stats, Coverage) {
     st.sample(json!({"rule": "rule_middle_dot", "label": ["l", "U+00B7"], "position": 1, "expected": "Ok(false) or Undefined (After lies outside the label)"}));
     st.sample(json!({"rule": "rule_katakana_middle_dot", "label": ["U+30FB", "X"], "position": 0, "expected": "Ok(true) iff Script(X) in {Hiragana,Katakana,Han} per Scripts-6.3.0, for every scalar X"}));
     let cov = Coverage {
-        rule: format!("(a) every scalar value X substituted into {} role templates (1-deviation from a fixed label) + each of the 8 rule functions on [X],0; (b) every label of length <= {} over {{D,L,R,T,a,virama,ZWNJ,ZWJ}} and of length <= {} over the 14 script/digit/punctuation symbols, every rule at every position in 0..=len+1, usize::MAX-1, usize::MAX; (b3) every ordered pair of equal-byte-length labels of length <= 3/4 over 12 symbols presented one after the other in the same allocation; (c) registry on u32; oracle = RFC 5892 App. A conditions over the pinned 6.3.0 Scripts/DerivedJoiningType/UnicodeData(ccc=9), with Undefined tolerated only where a named neighbour lies outside the label; non-trivial = cases where the RFC condition is true", tpls.len(), n1, n2),
+        rule: format!("(a) every scalar value X substituted into {} role templates (1-deviation from a fixed label) + each of the 8 rule functions on [X],0; (b) every label of length <= {} over {{D,L,R,T,a,virama,ZWNJ,ZWJ}} and of length <= {} over the 14 script/digit/punctuation symbols, every rule at every position in 0..=len+1, usize::MAX-1, usize::MAX; (b3) every ordered pair of equal-byte-length labels of length <= 3/4 over 12 symbols presented one after the other in the same allocation; (b4) two-call histories: a rule call on label A at position p followed by a rule call on a different label B of equal byte length in the same allocation at q >= p, all pairs of labels of length <= 3/4 over 6 symbols; (c) registry on u32; oracle = RFC 5892 App. A conditions over the pinned 6.3.0 Scripts/DerivedJoiningType/UnicodeData(ccc=9), with Undefined tolerated only where a named neighbour lies outside the label; non-trivial = cases where the RFC condition is true", tpls.len(), n1, n2),
         alphabet: json!({"joining": ["U+0626 D", "U+A872 L", "U+0629 R", "U+05BF T", "a", "U+094D virama", "U+200C", "U+200D"],
             "scripts": ["U+30FB", "U+3042", "U+30A2", "U+6F22", "a", "U+0660", "U+06F0", "U+05F3", "U+05F4", "U+05D0", "U+0375", "U+03B1", "U+00B7", "l"],
             "templates": tpls.iter().map(|t| json!({"rule": t.rule.name(), "label": t.label.iter().map(|o| o.map(|v| format!("U+{:04X}", v)).unwrap_or("X".into())).collect::<Vec<_>>(), "pos": t.pos})).collect::<Vec<_>>()}),
